@@ -2,6 +2,7 @@ import Kopf.Drv.Json
 import Kopf.Model.C04_Diff
 import Kopf.Model.C04_Essence
 import Kopf.Model.C04_Cycle
+import Kopf.Model.C04_Shared
 open Lean
 namespace Kopf.Drv.C04
 open Kopf.C04
@@ -144,6 +145,18 @@ def handle : DrvHandler := fun op args =>
       some (ok (match afterCycle (match o with | .null => none | o => some o) n with
         | some e => ofJ e
         | none => .null))
+  | "C04.served", [pol, hist, ks] => do
+      -- the prefixes a storage object takes for other Kopf operators' on an object with annotation names `ks`
+      -- after the objects of `hist` went through it (sorted, without repetitions)
+      let pol ← (match ← jStr? pol with
+        | "stateless" => some statelessDetect
+        | "remembering" => some rememberingDetect
+        | _ => none)
+      let hist ← (← jArr? hist).mapM jStrList?
+      let ks ← jStrList? ks
+      let ps := (servedPrefixes pol hist ks).map String.ofList
+      let ps := ps.foldl (fun acc p => if acc.contains p then acc else acc ++ [p]) []
+      some (ok (.arr ((ps.toArray.qsort (· < ·)).map Json.str)))
   | "C04.pyeq", [a, b] => do
       let a ← toJ a
       let b ← toJ b
